@@ -29,6 +29,9 @@ ReadOK(e) ==
   /\ \A c \in IClaims : GetOK(e.pre, c, e.get[c])
   /\ CompGettersOK(e.pre, e)
   /\ e.post = e.pre /\ e.snapEq /\ e.encEq /\ e.repEq           \* reading changes nothing, repeats identically
+  \* Evidence.GetInstanceID / GetImplementationID: the claim's value, or nothing when its getter fails
+  /\ e.evInst = (IF ClaimOK(e.pre, "instId") THEN e.pre.instId ELSE Abs)
+  /\ e.evImpl = (IF ClaimOK(e.pre, "implId") THEN e.pre.implId ELSE Abs)
 \* error returned by a failed call: one of the admissible classes, exactly one class
 ErrOK(r, admissible) == ~r.ok /\ Cardinality(SeqToSet(r.cls)) = 1 /\ SeqToSet(r.cls) \subseteq admissible
 StepOK(e, x) ==          \* x = [post, ret] computed by the spec's step function
@@ -60,6 +63,18 @@ CanonOK(e) ==
 FilterOK(e) == e.out = (IF Filtered(e.isNil, SeqToSet(e.cls)) THEN "nil" ELSE "same")
 \* overwriting the input buffer after decoding changes nothing
 ScribbleOK(e) == e.post = e.pre /\ e.same /\ e.encSame
+\* the exported per-claim validators
+HashAlgIDs == {"md2", "md5", "sha-1", "sha-224", "sha-256", "sha-384", "sha-512", "shake128", "shake256"}
+ValidatorOK(e) ==
+  LET a == e.arg
+      ok == CASE e.fn = "ValidateImplID" -> ImplIdOK(a)
+              [] e.fn \in {"ValidatePSAHashType", "ValidateNonce"} -> HashOK(a)
+              [] e.fn = "ValidateInstID" -> InstIdOK(a)
+              [] e.fn = "ValidateVSI" -> VsiOK(a)
+              [] e.fn = "ValidateHashAlgID" -> a.s[1] \in HashAlgIDs
+              [] e.fn = "ValidateSwComponents" -> Len(a.l) > 0 /\ ListClasses(a.l) = {}
+  IN /\ e.ret.ok = ok
+     /\ (~ok => IF e.fn = "ValidateSwComponents" /\ Len(a.l) > 0 THEN ErrOK(e.ret, ListClasses(a.l)) ELSE ErrOK(e.ret, {"wrongSyntax"}))
 \* an outside mutation of a stored component: the spec takes the observed state
 ExtOK(e) == TRUE
 
@@ -73,6 +88,7 @@ Match(e) ==
     [] e.op = "Canon"   -> CanonOK(e)
     [] e.op = "Ext"     -> ExtOK(e)
     [] e.op = "Filter"  -> FilterOK(e)
+    [] e.op = "Validator" -> ValidatorOK(e)
     [] e.op = "Scribble" -> ScribbleOK(e)
     [] OTHER -> FALSE
 HasState(e) == e.op \in {"Read", "Set", "SetSw", "AddSw", "Canon", "Ext"}
